@@ -215,6 +215,7 @@ structure Parsed where
   unhashed : List Bytes
   profileGenerate : Bool
   tooHardPP : Option Bytes
+  suppressRio : Bool := false      -- `suppress_rewrite_includes_only` (gcc: `-pedantic…` together with a gnu standard / no `-std`)
 deriving Repr, DecidableEq
 
 inductive PRes where
@@ -247,6 +248,8 @@ structure St where
   seenArch : Option Bytes := none
   serDiag : Option Bytes := none
   tooHardPP : Option Bytes := none
+  pedantic : Bool := false
+  langExt : Bool := true                  -- `language_extensions`: the last `-std=` value starts with "gnu" (or none given)
 
 def valueOf : Argument → Bytes
   | .withValue _ _ v _ => v | _ => []
@@ -269,7 +272,9 @@ def classifyCore (multiArchOk : Bool) (st : St) (a : Argument) : Except Bytes St
   let strs := a.strings
   match a.variant with
   | some .tooHardFlag | some .tooHard => .error ((a.flagStr).getD [])
-  | some .pedanticFlag | some .standard | some .diagnosticsColor | some .diagnosticsColorFlag
+  | some .pedanticFlag => .ok { st with pedantic := true, common := st.common ++ strs }
+  | some .standard => .ok { st with langExt := (sb "gnu").isPrefixOf (valueOf a), common := st.common ++ strs }
+  | some .diagnosticsColor | some .diagnosticsColorFlag
   | some .noDiagnosticsColorFlag | some .passThrough | some .passThroughFlag | some .passThroughPath
   | some .clangProfileUse | some .extraHashFile =>
     .ok { st with common := st.common ++ strs }
@@ -330,7 +335,8 @@ def finishWith (st : St) (input : Bytes) (lang : Lang) : Parsed :=
     pre := st.pre,
     common := st.common ++ (if st.splitDwarf then [sb "-D_gsplit_dwarf_path=" ++ withExtension output (sb "dwo")] else []),
     arch := st.arch, unhashed := st.unhashed,
-    profileGenerate := st.profileGenerate || st.gcno, tooHardPP := st.tooHardPP }
+    profileGenerate := st.profileGenerate || st.gcno, tooHardPP := st.tooHardPP,
+    suppressRio := st.langExt && st.pedantic }
 
 def resolveLang (plusplus : Bool) (st : St) (input : Bytes) : Option Lang :=
   match st.lang with
@@ -394,5 +400,31 @@ def regen (p : Parsed) : List Bytes :=
   ++ [p.cflag, sb "-o", ((p.outputs.find? (·.1 == sb "obj")).map (·.2.1)).getD []]
   ++ p.pre ++ p.dep ++ p.unhashed ++ p.common ++ p.arch
   ++ (if p.doubleDash then [sb "--"] else []) ++ [p.input]
+
+/-- the argument vector of the **distributed** command of `generate_compile_commands` (`gcc` = `CCompilerKind::Gcc`; `rio` =
+    the client's `rewrite_includes_only`): `none` = compiled locally (`-v` / `--verbose` among the local arguments, CUDA, a language
+    without a `-x` name, or a string that is not UTF-8).  Only the language, the compilation flag, input, output and the **common**
+    arguments travel: preprocessor and dependency arguments have done their work locally — and `arch` / `unhashed` arguments are not
+    sent either. -/
+def distLang (rio : Bool) (p : Parsed) : Option (Option Bytes) :=        -- outer none = the closure gives up (`language.as_mut()?`)
+  if rio then some (langGccArg p.lang) else
+  match p.lang with
+  | .c => some (some (sb "cpp-output"))
+  | .genericHeader | .cHeader | .cxxHeader => some (langGccArg p.lang)
+  | _ => match langGccArg p.lang with | some l => some (some (l ++ sb "-cpp-output")) | none => none
+
+/-- everything of the distributed command before the common arguments -/
+def distHead (gcc rio : Bool) (p : Parsed) (l : Option Bytes) : List Bytes :=
+  (match l with | some x => [sb "-x", x] | none => [])
+    ++ [p.cflag, p.input, sb "-o", ((p.outputs.find? (·.1 == sb "obj")).map (·.2.1)).getD []]
+    ++ (if gcc then (if rio && !p.suppressRio then [sb "-fdirectives-only"] else []) ++ [sb "-fpreprocessed"] else [])
+
+def distLocalOnly (p : Parsed) : Bool := (regen p).contains (sb "-v") || (regen p).contains (sb "--verbose") || p.lang == .cuda
+
+def distRegen (gcc rio : Bool) (p : Parsed) : Option (List Bytes) :=
+  if distLocalOnly p then none else
+  match distLang rio p with
+  | none => none
+  | some l => if (distHead gcc rio p l ++ p.common).all RArgsM.validUtf8 then some (distHead gcc rio p l ++ p.common) else none
 
 end ArgsM
